@@ -121,6 +121,11 @@ func Lock(phase, op, name string, ok bool) {
 // (Go's map iteration order is random; under the simulator it is a seeded decision).
 var PermHook func(n int) []int
 
+// ShardHook, when set, decides which shard of a sharded cache a key lives in (the tree
+// hashes with a process-random seed: which keys evict each other would otherwise differ
+// from process to process).
+var ShardHook func(cache, key string, shards int) int
+
 // IDHook, when set, replaces process-random identifiers (xid) by simulator-chosen ones:
 // the shard an id hashes to, and with it who contends with whom, must not depend on
 // the process.
@@ -286,6 +291,21 @@ func (m *Map[K, V]) Values() []V {
     with open(os.path.join(cdir, "cmap.go"), "w") as f:
         f.write(t)
     overlay[src] = os.path.join(cdir, "cmap.go")
+
+# ---- pkg/cache: the shard of a key is a decision of the simulator
+src = os.path.join(repo, "pkg/cache/lru_with_stats.go")
+t = open(src).read()
+pat = r"func \(c \*LRU\[K, V\]\) shard\(key K\) int \{\n"
+if len(re.findall(pat, t)) != 1:
+    sys.stderr.write("geninstr: cannot find exactly one LRU.shard in %s\n" % src)
+    sys.exit(2)
+t = re.sub(pat, 'func (c *LRU[K, V]) shard(key K) int {\n\tif h := zzsimrt.ShardHook; h != nil {\n\t\treturn h(c.name, fmt.Sprint(key), numShards)\n\t}\n', t)
+t = re.sub(r'^import \(\n', 'import (\n\t"fmt"\n\t"github.com/yorkie-team/yorkie/pkg/zzsimrt"\n', t, count=1, flags=re.M)
+kdir = os.path.join(out, "cache")
+os.makedirs(kdir, exist_ok=True)
+with open(os.path.join(kdir, "lru_with_stats.go"), "w") as f:
+    f.write(t)
+overlay[src] = os.path.join(kdir, "lru_with_stats.go")
 
 with open(os.path.join(out, "overlay.json"), "w") as f:
     json.dump({"Replace": overlay}, f, indent=1)
